@@ -50,6 +50,10 @@ def shards(tier, seed):
     nb = 4 if tier == "quick" else 8
     for i in range(nb):
         out.append({"kind": "large", "pairs": big[i::nb], "per_pair": 1 if tier == "quick" else 30})
+    # 4.2 million parameter values x 17 .. 24 rows (more than 2^26 Jacobian entries in one sweep when k is None)
+    huge = [(17, None), (20, 18)] if tier == "quick" else [(17, None), (20, None), (24, None), (20, 18), (20, 20), (24, 17), (17, 16), (20, 1)]
+    for pr in huge:
+        out.append({"kind": "huge", "pairs": [pr]})
     return out
 
 
@@ -57,7 +61,7 @@ def requirements(tier):
     return {"grid_pairs_backward": 114, "grid_pairs_mtl": 114, "sweep_count_checked": 1000, "rows_per_sweep_checked": 1000,
             "sequential_no_batched_checked": 40, "values_equal_k1_checked": 500, "head_swept_once_checked": 300,
             "hostile_k1_succeeded": 30, "hostile_single_row_succeeded": 5, "w_several_batched_sweeps": 100, "w_k_larger_than_m": 100,
-            "w_retain_false": 200, "w_retain_true": 200, "large_pairs_backward": 36, "w_more_than_64_rows_default_chunk": 4, "vmap_recorder_hits": 1, "grad_recorder_hits": 1}
+            "w_retain_false": 200, "w_retain_true": 200, "large_pairs_backward": 36, "w_model_sized_parameter": 2, "w_more_than_64_rows_default_chunk": 4, "vmap_recorder_hits": 1, "grad_recorder_hits": 1}
 
 
 def info(g):
@@ -345,8 +349,44 @@ def check_hostile(case, ctx):
     ctx.evaluated(fingerprint(slim), nontrivial=m >= 2 and k == 1)
 
 
+def check_huge(case, ctx):
+    """A model-sized parameter (4.2 million values in one tensor): the number of sweeps must depend on (rows, chunk size) only,
+    never on the number of parameters (no hidden memory budget overriding parallel_chunk_size)."""
+    from torchjd import backward
+    m, k, n = case["m"], case["k"], case["n"]
+    w = torch.full((n,), 0.5, dtype=torch.float32, requires_grad=True)
+    h = (w * w).sum()
+    y = torch.arange(1, m + 1, dtype=torch.float32) * h
+    hk = Hooks()
+    hk.add("h", h)
+    err = None
+    try:
+        backward(y, aggs.make({"name": "Mean"}, torch.float32), inputs=[w], parallel_chunk_size=k)
+    except Exception as e:
+        err = e
+    hk.remove()
+    if err is not None:
+        ctx.violation("backward_raised", case, {"error": repr(err)[:300]})
+    else:
+        vio = judge_sweeps(hk.log, ["h"], [], m, k, ctx)
+        if vio is None:
+            exp = float(np.mean(np.arange(1, m + 1))) * 2 * 0.5
+            if not bool(((w.grad - exp).abs() <= 1e-4 * exp).all()):
+                vio = ("value_depends_on_chunk_size", {"expected_every_entry": exp, "got_first_entries": w.grad[:4].tolist()})
+        if vio:
+            ctx.violation(vio[0], case, vio[1])
+    ctx.count("w_model_sized_parameter")
+    _witness(ctx, m, k, False)
+    ctx.evaluated(fingerprint(case), nontrivial=True)
+    ctx.sample({"entry": "backward", "m": m, "k": k, "parameter_values": n, "hook_events": {"h": hk.log.get("h", [])[:6]}})
+
+
 def run_shard(shard, ctx):
     rng = shard_rng(ctx.seed, ID, ctx.shard_index)
+    if shard["kind"] == "huge":
+        for m, k in shard["pairs"]:
+            run_cases(ctx, rng, 1, lambda r, i: {"huge": True, "m": m, "k": k, "n": 2 ** 22}, check_huge)
+        return
     if shard["kind"] == "grid":
         for m, k in shard["pairs"]:
             for rep in range(shard["per_pair"]):
@@ -377,6 +417,8 @@ def run_shard(shard, ctx):
 
 
 def replay(case, ctx):
+    if case.get("huge"):
+        return check_huge(case, ctx)
     if "heads" in case["program"]:
         check_mtl(case, ctx)
     elif any(n["op"] == "hostile" for n in case["program"]["nodes"]):
